@@ -246,7 +246,7 @@ func (c *Checker) Record(info CaseInfo, kind string, v *Violation) {
 	if c.triage != nil {
 		var kt []string
 		for _, t := range info.Tags {
-			if os.Getenv("VERIF_TRIAGE") == "full" || !(strings.HasPrefix(t, "dtype=") || strings.HasPrefix(t, "rank") || strings.HasPrefix(t, "route=")) {
+			if os.Getenv("VERIF_TRIAGE") == "full" || !(strings.HasPrefix(t, "dtype=") || strings.HasPrefix(t, "rank") || strings.HasPrefix(t, "route=") || strings.HasPrefix(t, "to=") || strings.HasPrefix(t, "vtype=") || strings.HasPrefix(t, "enc=")) {
 				kt = append(kt, t)
 			}
 		}
